@@ -547,6 +547,8 @@ package transport
 //@   assert at return 3 b.uncompactedBytes == 0 && b.uncompactedSuffixLen == 0 && len(b.backlog) == old(len(b.backlog))
 //@   assert at return 4 b.uncompactedSuffixLen == old(b.uncompactedSuffixLen) + 1 && b.uncompactedSuffixLen <= len(b.backlog) && len(b.backlog) == old(len(b.backlog))
 //@   assert at call Get#1 arg0 == b.uncompactedBytes && b.uncompactedSuffixLen == old(b.uncompactedSuffixLen) + 1
+//@   loop 1 invariant startIdx == old(len(b.backlog)) - old(b.uncompactedSuffixLen) - 1 && 0 <= startIdx && sameslice(b.backlog, old(b.backlog))
+//@   assert at return end len(b.backlog) == old(len(b.backlog)) - old(b.uncompactedSuffixLen) && sameslice(b.backlog[:0], old(b.backlog[:0])) && b.uncompactedBytes == 0 && b.uncompactedSuffixLen == 0
 //@   assert at call Len#1 r.buffer != nil && b.uncompactedSuffixLen == old(b.uncompactedSuffixLen) + 1
 
 // ---- C12: the server's admission of a new stream ------------------------------------------------------
@@ -570,6 +572,9 @@ package transport
 //@   opt purecalls cancel inTapHandle
 //@   requires t != nil && frame != nil && frame.HeadersFrame != nil && t.activeStreams != nil
 //@   loop 1 invariant t.maxStreamID == streamID && streamID%2 == 1 && s != nil && s.id == streamID && mdata != nil
+//@   loop 1 step implies(athead(headerError) != nil, headerError != nil) && implies(athead(protocolError), protocolError)
+//@   loop 1 step implies(ncalls("decodeTimeout") > athead(ncalls("decodeTimeout")) && lastret("decodeTimeout.err") != 0, headerError != nil)
+//@   loop 1 step implies(ncalls("decodeMetadataHeader") > athead(ncalls("decodeMetadataHeader")) && lastret("decodeMetadataHeader.err") != 0, headerError != nil)
 //@   assert at return 1 ncalls("handle") == 0
 //@   assert at return 2 ncalls("handle") == 0 && (streamID%2 != 1 || streamID <= t.maxStreamID)
 //@   assert at return 3 ncalls("handle") == 0 && t.maxStreamID == streamID
